@@ -80,7 +80,8 @@ def record(tw, rng, n, stats, probe_cap=60):
             # partial pressures from a mass-fraction and from the equivalent mole-fraction input
             w = gen.fraction(rng)
             cw = pv.Composition(p=w, type="weight")
-            cx = cw.to_molar(m)
+            M1, M2 = float(m.first_component.molecular_weight), float(m.second_component.molecular_weight)
+            cx = pv.Composition(p=(w / M1) / (w / M1 + (1 - w) / M2), type="molar")      # Composition.tla's ToMolarP, independent of the code
             pw = pv.get_partial_pressures(T, m, cw, model)
             px = pv.get_partial_pressures(T, m, cx, model)
             g = calculate_activity_coefficients(T, m, cx, model)
